@@ -116,6 +116,11 @@ func runC15(c *core.Ctx) {
 		runHugeLinear(c, h, hugeLinearN(c.Tier))
 		return
 	}
+	if h := c.Index - hugeCases - hugeLinearKinds; h >= 0 && h < hugeHashKinds {
+		c.Only = func(kind string) bool { return kind == "size" || kind == "empty" || kind == "keys" || kind == "values" }
+		runHugeHash(c, h) // Size/Empty/Keys/Values agreement and Clear beyond 4096 entries
+		return
+	}
 	kind := dynKinds[c.Index%len(dynKinds)]
 	d := newDynRandom(c, kind, false)
 	checkAgreement(c, d)
@@ -224,6 +229,7 @@ func init() {
 			f := &floorCheck{m: m}
 			f.atLeast("obs:loads-of-foreign-documents-inside-histories", 5000)
 			f.atLeast("obs:loads-inside-histories", 5000)
+			f.atLeast("obs:huge-hash-cases", hugeHashKinds)
 			f.atLeast("obs:agreement", 200000)
 			f.atLeast("obs:String", 30000)
 			f.atLeast("obs:cleared-vs-fresh", 50000)
